@@ -1292,4 +1292,5 @@ func main() {
 			fail(nil, nil, "write %s: %v", path, err)
 		}
 	}
+	emitContents(*repo, *outDir)
 }
